@@ -34,6 +34,10 @@ class World:
         uri = '%s://srv.example:1234%s' % (scheme, '/p' if 'http' in scheme else '')
         k = key.decode('latin1')
         if transport in ('http', 'tcp'):
+            if rng.random() < 0.5 and len(key) < 60000:
+                # the endpoint was configured before, with a login id and a key of which the present ones are proper prefixes: only the last setting counts
+                c('set_aggr 0 %s %s %s' % (uri, login + '-2', k + '-2016'))
+                c('set_ext 0 %s %s %s' % (uri.replace('1234', '1235'), login + '-2', k + '-2016'))
             self.setrc = c('set_aggr 0 %s %s %s' % (uri, login, k)).rc
             c('set_ext 0 %s %s %s' % (uri.replace('1234', '1235'), login, k))
         else:
